@@ -49,13 +49,13 @@ func alwaysKeep(c *emuCase) bool {
 	case "ECAdd":
 		return c.Class == "inf+inf" || c.Class == "G+G" || c.Class == "G+-G"
 	case "ScalarMul":
-		for _, s := range []string{"s=0,P=R1", "s=1,P=R1", "s=r-1,P=R1", "s=r,P=R1", "s=r+1,P=R1", "s=cap,P=R1", "s=random,P=inf", "s=0,P=inf", "s=glv:+1*lambda,P=G", "s=glv:+1*lambda^2,P=G", "s=1,P=G", "s=2,P=G"} {
+		for _, s := range []string{"s=3,P=R1", "s=r-3,P=R1", "s=0,P=8G(table-point)", "s=1,P=8G(table-point)", "s=glv:+1*1+1*lambda,P=G", "s=0,P=R1", "s=1,P=R1", "s=r-1,P=R1", "s=r,P=R1", "s=r+1,P=R1", "s=cap,P=R1", "s=random,P=inf", "s=0,P=inf", "s=glv:+1*lambda,P=G", "s=glv:+1*lambda^2,P=G", "s=1,P=G", "s=2,P=G"} {
 			if c.Class == s {
 				return true
 			}
 		}
 	case "ScalarMulBase":
-		return c.Class == "s=0" || c.Class == "s=1" || c.Class == "s=r-1" || c.Class == "s=r+1"
+		return c.Class == "s=0" || c.Class == "s=1" || c.Class == "s=r-1" || c.Class == "s=r+1" || c.Class == "s=3" || c.Class == "s=r"
 	case "AddUnified":
 		return c.Class == "inf+inf" || c.Class == "G+G" || c.Class == "G+-G" || c.Class == "inf+R1" || c.Class == "R1+inf" || c.Class == "R1+R2"
 	case "JointScalarMulBase":
@@ -231,7 +231,7 @@ func sampleEmu(rng *rand.Rand, cases []*emuCase, quota map[string]int) []*emuCas
 		n := quota[op]
 		var keep, rest []*emuCase
 		for _, c := range list {
-			if alwaysKeep(c) && (c.Complete || !hasBothModes(op)) {
+			if alwaysKeep(c) && (c.Complete || !hasBothModes(op) || rootClass(c)) {
 				keep = append(keep, c)
 			} else {
 				rest = append(rest, c)
@@ -255,4 +255,17 @@ func hasBothModes(op string) bool {
 		return false
 	}
 	return true
+}
+
+// rootClass marks the single-scalar-multiplication classes that are executed in
+// both modes in every run: they are the possible roots of composite failures
+// (JointScalarMulBase / MultiScalarMul are folded into them).
+func rootClass(c *emuCase) bool {
+	switch c.Op {
+	case "ScalarMul":
+		return c.Class == "s=1,P=R1" || c.Class == "s=r-1,P=R1" || c.Class == "s=3,P=R1" || c.Class == "s=r-3,P=R1" || c.Class == "s=r+1,P=R1"
+	case "ScalarMulBase":
+		return c.Class == "s=1" || c.Class == "s=r-1" || c.Class == "s=3"
+	}
+	return false
 }
